@@ -152,6 +152,12 @@ def run_property(pid, tier='quick', seed=0, repo=None, write=True, quiet=False,
   analysis_errors = []
   try:
     ctx = Ctx(repo)
+    for m_ in ctx.ix.modules.values():
+      if m_.normalized != (0, 0) or m_.renamed_locals:
+        ctx.note('normal form of %s: %d helper/closure/temporary rewrites, %d idiom/loop rewrites, %d locals mapped to reference names'
+                 % (m_.relpath, m_.normalized[0], m_.normalized[1], m_.renamed_locals))
+      if getattr(m_, 'normalize_error', None):
+        ctx.note('normal form of %s not computed (%s): analysed as written' % (m_.relpath, m_.normalize_error))
     mod = importlib.import_module('ginsa.rules.' + pid.lower())
     try:
       mod.run(ctx)
